@@ -140,18 +140,22 @@ def shape_class(cells):
 
 
 # ----------------------------------------------------------------------------- judging one Cartesian file
-def judge_file(path, rows, swap, failures, hsh, desc, flags_present):
+def judge_file(path, rows, swap, failures, hsh, desc, flags_present, fc=None):
     import csep
     cls = desc['cls']
-    rep = dict(kind='file1', **{k: desc[k] for k in ('anchor', 'dh', 'cells', 'order', 'nmag', 'maggrid', 'flags', 'swap', 'style')})
+    if desc.get('tag') == 'load-A-then-B':
+        rep = dict(kind='files', anchor=desc['anchor'], dh=desc['dh'], only='load-A-then-B')
+    else:
+        rep = dict(kind='file1', **{k: desc[k] for k in ('anchor', 'dh', 'cells', 'order', 'nmag', 'maggrid', 'flags', 'swap', 'style')})
 
     def fail(api, what, detail):
         failures.append(Fail(f'{api}|{what}|{cls}', f'{detail} | file: anchor={desc["anchor"]} dh={desc["dh"]} variant={desc["tag"]}', rep))
-    try:
-        fc = csep.load_gridded_forecast(path, swap_latlon=swap, start_date=T0, end_date=T1)
-    except Exception as e:
-        fail('csep.load_gridded_forecast', type(e).__name__, f'{type(e).__name__}: {e}')
-        return 1
+    if fc is None:
+        try:
+            fc = csep.load_gridded_forecast(path, swap_latlon=swap, start_date=T0, end_date=T1)
+        except Exception as e:
+            fail('csep.load_gridded_forecast', type(e).__name__, f'{type(e).__name__}: {e}')
+            return 1
     evals = 1
     P = [dict(lon0=float(r['lon0']), lon1=float(r['lon1']), lat0=float(r['lat0']), lat1=float(r['lat1']), m0=float(r['m0']),
               m1=float(r['m1']), rate=float(r['rate']), flag=int(r['flag']), cell=r['cell']) for r in rows]
@@ -265,6 +269,31 @@ def run_files(case, failures, hsh):
         os.remove(path)
         states += 1
         if shape_class(cells) != 'general' or holes or flags or swap or order != 'lat-fast' or nmag > 1:
+            nontriv += 1
+    # history: two files with the SAME cells but different magnitude bins are loaded one after the other; the forecast
+    # loaded first must still answer from its own file afterwards (nothing may be shared between the two loads)
+    if not only or only == 'load-A-then-B':
+        import csep
+        cells32 = [(c, r) for c in range(3) for r in range(2)]
+        for flags in (None, [1, 1, 0, 1, 1, 1]):
+            rows_a = lattice_spec(anchor, dh, cells32, 'lat-fast', 2, 'a', flags, 'min')
+            rows_b = lattice_spec(anchor, dh, cells32, 'lat-fast', 3, 'b', flags, 'min')
+            pa = os.path.join(wd, f'fa_{os.getpid()}.dat')
+            pb = os.path.join(wd, f'fb_{os.getpid()}.dat')
+            write_dat(pa, rows_a, False)
+            write_dat(pb, rows_b, False)
+            desc = dict(anchor=anchor, dh=dh, cells=[list(c) for c in cells32], order='lat-fast', nmag=2, maggrid='a', flags=flags, swap=False,
+                        style='min', tag='load-A-then-B', holes=[], cls='second-file-loaded-in-between')
+            try:
+                fa = csep.load_gridded_forecast(pa, start_date=T0, end_date=T1)
+                fb = csep.load_gridded_forecast(pb, start_date=T0, end_date=T1)
+                evals += judge_file(pb, rows_b, False, failures, hsh, dict(desc, nmag=3, maggrid='b'), flags is not None, fc=fb)
+                evals += judge_file(pa, rows_a, False, failures, hsh, desc, flags is not None, fc=fa)
+            except Exception as e:
+                failures.append(Fail(f'csep.load_gridded_forecast|{type(e).__name__}|second-file-loaded-in-between', f'{type(e).__name__}: {e}', dict(kind='files', anchor=anchor, dh=dh, only='load-A-then-B')))
+            os.remove(pa)
+            os.remove(pb)
+            states += 1
             nontriv += 1
     return evals, nontriv, states
 
